@@ -45,6 +45,7 @@ pub fn run(ctx: &mut Ctx, toks: &[&str]) -> String {
     }
     let c = ctx.gen.as_mut().unwrap();
     c.map.set_u16(OFF_GENERATION, g);
+    let mut after_restart: Option<u16> = None;
     if variant == 3 {
         // the previous daemon is gone (its mapping with it); a new one starts over the file as it is
         let path = c.path.clone();
@@ -52,6 +53,7 @@ pub fn run(ctx: &mut Ctx, toks: &[&str]) -> String {
         let old = std::mem::replace(&mut c.writer, writer);
         drop(old);
         c.map = RawMap::open(&path, 72);
+        after_restart = Some(c.map.u16_at(OFF_GENERATION));
     }
     let rec = match variant {
         1 if c.last.0 >= 0 => (c.last.0, (c.last.1 + 1) % 3),
@@ -79,5 +81,8 @@ pub fn run(ctx: &mut Ctx, toks: &[&str]) -> String {
     let post = c.map.u16_at(OFF_GENERATION);
     // mid = the constant value seen during the copy, or -1 if it was not constant / not seen
     let mid = if n == 7 && lo == hi { lo } else { -1 };
-    format!("{} {} {}", g, mid, post)
+    match after_restart {
+        Some(r) => format!("{} {} {} {}", g, mid, post, r),
+        None => format!("{} {} {}", g, mid, post),
+    }
 }
